@@ -383,6 +383,9 @@ class AnsiString:
             ansi_settings = None
         else:
             ansi_settings = _AnsiSettingPoint._scrub_ansi_settings(settings)
+            if not ansi_settings:
+                # Nothing to remove (e.g. a list of empty lists)
+                return
 
         # Settings (in order of precedence) at the end index before anything is changed
         settings_at_end = self.ansi_settings_at(end)
@@ -462,9 +465,11 @@ class AnsiString:
                     s for s in current_settings
                     if __class__._find_setting_reference(s, rem_only) < 0
                 ] + add_only
-                if len(with_restarts) == len(without_restarts) and all(a is b for a, b in zip(with_restarts, without_restarts)):
+                # (compared by value: swapping two equal settings is no effect either)
+                if len(with_restarts) == len(without_restarts) and all(a == b for a, b in zip(with_restarts, without_restarts)):
                     settings_point.rem = rem_only
                     settings_point.add = add_only
+                    with_restarts = without_restarts
             current_settings = with_restarts
 
         # Clean up now empty entries
